@@ -52,23 +52,29 @@ def from_result_cases():
     out = []
     fr = hsolve.SolverOutput.__dict__["from_result"]
     fr = fr.__func__ if isinstance(fr, staticmethod) else fr
-    for valid in (True, False):
+    for valid, refined in ((True, False), (False, False), (True, True), (False, True)):
 
-        def harness(interp, valid=valid):
+        def harness(interp, valid=valid, refined=refined):
             ctx = interp.ctx
             seen = {"valid": [], "parse": []}
             marker = {"halmos_x_uint256_00": "<var>"}
             interp.contracts["halmos.solve:is_model_valid"] = lambda i, a, k: (seen["valid"].append(a[0]), valid)[1]
             interp.contracts["halmos.solve:parse_model_str"] = lambda i, a, k: (seen["parse"].append(a[0]), marker)[1]
             stdout = "sat\n(\n  (define-fun halmos_x_uint256_00 () (_ BitVec 256) #x01)\n)\n"
-            pc = types.SimpleNamespace(args=config(), path_id=5, dump_file="/nonexistent/q.smt2")
-            r = interp.call(fr, [stdout, "", 0, pc], {})
+            pc = types.SimpleNamespace(args=config(), path_id=5, dump_file="/nonexistent/q.smt2", is_refined=refined, query=None, solving_ctx=None)
+            try:
+                r = interp.call(fr, [stdout, "", 0, pc], {})
+            except BaseException as e:
+                if isinstance(e, _ENGINE):
+                    raise
+                ctx.oblige(f"no-exception[{type(e).__name__}]", z3.BoolVal(False), info={"msg": str(e)[:200]})
+                return
             ctx.oblige("sat: a model is attached", z3.BoolVal(r.result == z3.sat and r.model is not None))
             if r.model is not None:
-                ctx.oblige("the validity flag is is_model_valid of this very solver output", z3.BoolVal(r.model.is_valid is valid and seen["valid"] == [stdout]))
+                ctx.oblige("the validity flag is is_model_valid of this very solver output (also for a refined query: exp stays abstract)", z3.BoolVal(r.model.is_valid is valid and seen["valid"] == [stdout]))
                 ctx.oblige("the variables are those parsed from this very solver output", z3.BoolVal(r.model.model is marker and seen["parse"] == [stdout]))
 
-        out.append(Case(f"{PROP}/solve.SolverOutput.from_result", f"sat,is_model_valid={valid}", harness, sources=("halmos.solve:SolverOutput.from_result",)))
+        out.append(Case(f"{PROP}/solve.SolverOutput.from_result", f"sat,is_model_valid={valid},refined-query={refined}", harness, sources=("halmos.solve:SolverOutput.from_result",)))
     return out
 
 
